@@ -159,28 +159,8 @@ let opt_hex_parse s =
   else if String.length s >= 1 && s.[0] = 'x' then Some (bytes_of_hex (String.sub s 1 (String.length s - 1)))
   else bad ("opt hex: " ^ s)
 
-let print_avp (a : M.avp) : string =
-  let d = dec_of_n and h = hex_of_bytes in
-  match a with
-  | M.AMessageType t -> "MessageType(" ^ name_of mt_names t ^ ")"
-  | M.AResultCode (c, None) -> "ResultCode(" ^ d c ^ ",-)"
-  | M.AResultCode (c, Some (et, m)) ->
-    "ResultCode(" ^ d c ^ "," ^ name_of et_names et ^ "," ^ opt_hex_print m ^ ")"
-  | M.AProtocolVersion (v, r) -> "ProtocolVersion(" ^ d v ^ "," ^ d r ^ ")"
-  | M.A32 (k, v) -> name_of k32_names k ^ "(" ^ d v ^ ")"
-  | M.ATieBreaker v -> "TieBreaker(" ^ d v ^ ")"
-  | M.A16 (k, v) -> name_of k16_names k ^ "(" ^ d v ^ ")"
-  | M.ABytes (k, v) -> name_of kbytes_names k ^ "(" ^ h v ^ ")"
-  | M.AStr (k, v) -> name_of kstr_names k ^ "(" ^ h v ^ ")"
-  | M.AFix (k, v) -> name_of kfix_names k ^ "(" ^ h v ^ ")"
-  | M.AQ931CauseCode (cc, cm, adv) -> "Q931CauseCode(" ^ d cc ^ "," ^ d cm ^ "," ^ opt_hex_print adv ^ ")"
-  | M.AProxyAuthenType t -> "ProxyAuthenType(" ^ name_of pa_names t ^ ")"
-  | M.AProxyAuthenId v -> "ProxyAuthenId(" ^ d v ^ ")"
-  | M.ACallErrors (a, b, c, e, f, g) ->
-    "CallErrors(" ^ String.concat "," (List.map d [a; b; c; e; f; g]) ^ ")"
-  | M.AAccm (s, r) -> "Accm(" ^ h s ^ "," ^ h r ^ ")"
-  | M.ASequencingRequired -> "SequencingRequired()"
-  | M.AHidden (t, v) -> "Hidden(" ^ d t ^ "," ^ h v ^ ")"
+(* printing goes through the extracted Gallina printers of Model/Show.v *)
+let print_avp (a : M.avp) : string = ocaml_string (M.show_avp a)
 
 let parse_avp (s : string) : M.avp =
   let (hd, args) = head_args s in
@@ -209,35 +189,7 @@ let parse_avp (s : string) : M.avp =
      match find_name kfix_names hd with Some (k, _) -> M.AFix (k, hx 0) | None ->
      bad ("avp kind: " ^ hd))
 
-let print_err (e : M.derr) : string =
-  let p n x = n ^ "(" ^ dec_of_n x ^ ")" in
-  match e with
-  | M.IncompleteAVP t -> p "IncompleteAVP" t
-  | M.UnknownMessageType x -> p "UnknownMessageType" x
-  | M.InvalidUtf8 t -> p "InvalidUtf8" t
-  | M.InvalidResultCodeErrorType x -> p "InvalidResultCodeErrorType" x
-  | M.AVPReadError t -> p "AVPReadError" t
-  | M.InvalidAVPLength x -> p "InvalidAVPLength" x
-  | M.UnknownAvp x -> p "UnknownAvp" x
-  | M.EmptyHiddenAVP -> "EmptyHiddenAVP"
-  | M.MisalignedHiddenAVP -> "MisalignedHiddenAVP"
-  | M.InvalidOriginalAVPLength x -> p "InvalidOriginalAVPLength" x
-  | M.UnsupportedVendorId x -> p "UnsupportedVendorId" x
-  | M.InvalidVersion x -> p "InvalidVersion" x
-  | M.InvalidReservedBits -> "InvalidReservedBits"
-  | M.IncompleteFlags -> "IncompleteFlags"
-  | M.InvalidOffset x -> p "InvalidOffset" x
-  | M.IncompleteDataMessageHeader -> "IncompleteDataMessageHeader"
-  | M.IncompleteDataMessagePayload -> "IncompleteDataMessagePayload"
-  | M.EmptyDataMessagePayload -> "EmptyDataMessagePayload"
-  | M.MessageReadError -> "MessageReadError"
-  | M.ForbiddenControlMessagePriority -> "ForbiddenControlMessagePriority"
-  | M.ForbiddenControlMessageOffset -> "ForbiddenControlMessageOffset"
-  | M.ControlMessageWithoutLength -> "ControlMessageWithoutLength"
-  | M.ControlMessageWithoutNsNr -> "ControlMessageWithoutNsNr"
-  | M.IncompleteControlMessageHeader -> "IncompleteControlMessageHeader"
-  | M.IncompleteControlMessagePayload -> "IncompleteControlMessagePayload"
-  | M.ControlMessageTypeNotFirst -> "ControlMessageTypeNotFirst"
+let print_err (e : M.derr) : string = ocaml_string (M.show_err e)
 
 let parse_err (s : string) : M.derr =
   let (hd, args) = head_args s in
@@ -268,20 +220,7 @@ let parse_err (s : string) : M.derr =
 let print_avps l = "[" ^ String.concat ";" (List.map print_avp l) ^ "]"
 let parse_avps s = List.map parse_avp (split_top ';' (unbracket s))
 
-let print_msg (m : M.message) : string =
-  let d = dec_of_n in
-  match m with
-  | M.Control c ->
-    "C(" ^ String.concat "," [d c.M.c_length; d c.M.c_tunnel; d c.M.c_session; d c.M.c_ns; d c.M.c_nr;
-                              print_avps c.M.c_avps] ^ ")"
-  | M.Data x ->
-    "D(" ^ String.concat "," [
-      (if x.M.d_prio then "1" else "0");
-      (match x.M.d_length with None -> "-" | Some l -> d l);
-      d x.M.d_tunnel; d x.M.d_session;
-      (match x.M.d_nsnr with None -> "-" | Some (a, b) -> d a ^ ":" ^ d b);
-      (match x.M.d_offset with None -> "-" | Some o -> d o);
-      hex_of_bytes x.M.d_data ] ^ ")"
+let print_msg (m : M.message) : string = ocaml_string (M.show_msg m)
 
 let parse_msg (s : string) : M.message =
   let (hd, args) = head_args s in
@@ -311,14 +250,9 @@ let outcome (f : 'a -> string) (o : 'a M.outcome) : string =
   | M.UB -> "UB"
   | M.OutOfFuel -> "NOFUEL"
 
-let print_errs es = "[" ^ String.concat "," (List.map print_err es) ^ "]"
-let print_mres (r, rest) =
-  match r with
-  | M.Ok m -> "Ok " ^ print_msg m ^ " rem=" ^ dec_of_n (M.len rest)
-  | M.Err es -> "Err " ^ print_errs es
+let print_mres x = ocaml_string (M.show_mres x)
 let print_dres f = function M.Ok a -> "Ok(" ^ f a ^ ")" | M.Err e -> "Err(" ^ print_err e ^ ")"
-let print_avpres (l, rest) =
-  "[" ^ String.concat ";" (List.map (print_dres print_avp) l) ^ "] rem=" ^ dec_of_n (M.len rest)
+let print_avpres x = ocaml_string (M.show_avpres x)
 
 (* ---------- reader / writer op sequences ---------- *)
 let rec parse_rop (s : string) : M.rop =
@@ -375,10 +309,10 @@ let run_case (line : string) : string =
   let f = Array.of_list (String.split_on_char '\t' line) in
   let arg i = if i < Array.length f then f.(i) else "" in
   match arg 0 with
-  | "DEC" -> outcome print_mres (M.m_decode (opts_of (arg 1)) (bytes_of_hex (arg 2)))
-  | "DEC0" -> outcome print_mres (M.m_decode M.default_opts (bytes_of_hex (arg 1)))
+  | "DEC" -> ocaml_string (M.ch_dec (opts_of (arg 1)) (bytes_of_hex (arg 2)))
+  | "DEC0" -> ocaml_string (M.ch_dec M.default_opts (bytes_of_hex (arg 1)))
   | "DECR" ->
-    outcome (fun x -> print_mres x ^ " viol=0") (M.m_decode (opts_of (arg 1)) (bytes_of_hex (arg 2)))
+    outcome (fun x -> ocaml_string (M.show_mres x) ^ " viol=0") (M.m_decode (opts_of (arg 1)) (bytes_of_hex (arg 2)))
   | "DECC" -> "cost=" ^ dec_of_n (M.m_decode_cost (opts_of (arg 1)) (bytes_of_hex (arg 2)))
   | "AVPSC" -> "cost=" ^ dec_of_n (M.m_avps_cost (bytes_of_hex (arg 1)))
   | "DECSEQ" ->
@@ -389,20 +323,15 @@ let run_case (line : string) : string =
         | M.Val ((M.Ok _, rest) as x) -> go rest (k - 1) (print_mres x :: acc)
         | other -> String.concat " | " (List.rev (outcome print_mres other :: acc)) in
     go (bytes_of_hex (arg 2)) 64 []
-  | "AVPS" -> outcome print_avpres (M.m_avps (bytes_of_hex (arg 1)))
-  | "AVPSR" -> outcome (fun x -> print_avpres x ^ " viol=0") (M.m_avps (bytes_of_hex (arg 1)))
-  | "TYPE" ->
-    outcome (fun (r, rest) -> print_dres print_avp r ^ " rem=" ^ dec_of_n (M.len rest))
-      (M.m_decode_avp (n_of_dec (arg 1)) (bytes_of_hex (arg 2)))
+  | "AVPS" -> ocaml_string (M.ch_avps (bytes_of_hex (arg 1)))
+  | "AVPSR" -> outcome (fun x -> ocaml_string (M.show_avpres x) ^ " viol=0") (M.m_avps (bytes_of_hex (arg 1)))
+  | "TYPE" -> ocaml_string (M.ch_type (n_of_dec (arg 1)) (bytes_of_hex (arg 2)))
   | "TYPER" ->
     outcome (fun (r, rest) -> print_dres print_avp r ^ " rem=" ^ dec_of_n (M.len rest) ^ " viol=0")
       (M.m_decode_avp (n_of_dec (arg 1)) (bytes_of_hex (arg 2)))
-  | "ENC" ->
-    outcome (fun b -> "Ok " ^ hex_of_bytes b) (M.m_encode (parse_msg (arg 1)) (bytes_of_hex (arg 2)))
+  | "ENC" -> ocaml_string (M.ch_enc (parse_msg (arg 1)) (bytes_of_hex (arg 2)))
   | "ENCA" ->
-    let a = parse_avp (arg 1) in
-    outcome (fun b -> "Ok " ^ hex_of_bytes b) (M.m_enc_avp a (bytes_of_hex (arg 2)))
-    ^ " glen=" ^ dec_of_n (M.m_get_length a)
+    ocaml_string (M.ch_enca (parse_avp (arg 1)) (bytes_of_hex (arg 2)))
   | "ENCS" | "ENCW" ->
     let msgs = List.map parse_msg (List.tl (List.tl (Array.to_list f))) in
     let r = M.m_encode_all_w msgs (M.writer_of (bytes_of_hex (arg 1))) in
